@@ -294,6 +294,6 @@ MANIFEST = dict(
         "'zero where there are none', one loss position per hypothesis token); that the targets are exactly the "
         "distance-preserving tokens is value-level and not decided."),
     level_note="Trusted: python ast; torch cross_entropy semantics.",
-    technique="static analysis: argument binding, literal/sentinel table agreement, expression-shape rules, layout-axis evaluation under the batch_first flag",
+    technique="static analysis: argument binding, literal/sentinel table agreement, expression-shape rules, layout-axis evaluation under the batch_first flag; interpretation of the loss tail over exact tensor values (syntax tree only) compared with the documented value for every reduction / layout / ignore index",
     design_ref="DESIGN.md section 4 C03",
 )
